@@ -127,7 +127,18 @@ impl RevocationBitmap {
           .map_err(|_| RevocationError::InvalidService("invalid data url - expected valid utf-8"))?,
       );
     }
-    let decoded_data: Vec<u8> = BaseEncoding::decode(&data, Base::Base64Url)
+    // Other encoders write the `;base64` payload of the data url as RFC 2397 defines it (the alphabet of RFC 4648
+    // section 4 with `=` padding), or pad the URL-safe form: the same bits in another spelling.
+    let normalized: String = data
+      .trim_end_matches('=')
+      .chars()
+      .map(|c| match c {
+        '+' => '-',
+        '/' => '_',
+        other => other,
+      })
+      .collect();
+    let decoded_data: Vec<u8> = BaseEncoding::decode(&normalized, Base::Base64Url)
       .map_err(|e| RevocationError::Base64DecodingError(data.as_ref().to_owned(), e))?;
     let decompressed_data: Vec<u8> = Self::decompress_zlib(decoded_data)?;
     Self::deserialize_slice(&decompressed_data)
